@@ -153,6 +153,13 @@ def naming_scenarios(with_clone=True):
                             "bulk_max": 2, "empty_bulk": False},
                     depth={"quick": 2, "thorough": 3}, policy=policy,
                     note="naming scope %s under the %s policy" % (kind, policy))
+        _NAMING["N-MIX-EDIF"] = Scenario(
+            "N-MIX-EDIF", seeds.seed_mixed_policy,
+            ["netlist.add_library", "netlist.remove_library", "library.add_definition", "library.remove_definition",
+             "definition.add_port", "definition.remove_port", "element.name=", "element.setitem", "element.delitem"],
+            limits={"positions": (None,), "names": (None, "a"), "keys": ("EDIF.identifier",), "elem_kinds": "LDPC"},
+            depth={"quick": 2, "thorough": 3}, policy="EDIF",
+            note="an EDIF-policy netlist extended with orphans built under the DEFAULT policy (compliant and not)")
     return list(_NAMING.values())
 
 S8 = Scenario(
